@@ -22,12 +22,16 @@ import (
 
 // Config is one way of reaching the front end and the compiler.
 type Config struct {
-	Kind string `json:"kind"` // bare | script | srcmod-body | srcmod-main | fileimp-body | fileimp-main | vars
+	Kind string `json:"kind"` // bare | bare-body | script | srcmod-body | srcmod-main | fileimp-body | fileimp-main
 	Mods bool   `json:"mods,omitempty"`  // builtin module map configured (script kinds)
 	NVar int    `json:"nvar,omitempty"`  // number of pre-declared variables
 	Bltn bool   `json:"bltn,omitempty"`  // some variables are named like builtin functions
 	Run  bool   `json:"run,omitempty"`   // also run the compiled script (child process only)
 	Trc  bool   `json:"trace,omitempty"` // parse with a trace writer (bare kind)
+	Src  int    `json:"src,omitempty"`   // 1..3: source modules m1..mSrc and "big" (> 256 locals) are configured as well
+	Pre  int    `json:"pre,omitempty"`   // body kinds: the main source imports m1..mPre before the module under test
+	Post int    `json:"post,omitempty"`  // body kinds: … and m1..mPost after it
+	Want string `json:"want,omitempty"`  // targeted inputs: "file@offset" of the erroneous token the error must name
 }
 
 func (c Config) String() string {
@@ -47,7 +51,70 @@ func (c Config) String() string {
 	if c.Trc {
 		s += "+trace"
 	}
+	if c.Src > 0 {
+		s += fmt.Sprintf("+src%d", c.Src)
+	}
+	if c.Pre > 0 || c.Post > 0 {
+		s += fmt.Sprintf("+pre%d+post%d", c.Pre, c.Post)
+	}
+	if c.Want != "" {
+		s += "+want:" + c.Want
+	}
 	return s
+}
+
+// extra source modules (Config.Src): m3 itself imports m1, "big" has more than 256 locals (its import fails)
+var bigSrc = func() []byte {
+	var sb strings.Builder
+	for i := 0; i < 300; i++ {
+		fmt.Fprintf(&sb, "v%d := %d\n", i, i)
+	}
+	return []byte(sb.String())
+}()
+
+func extraModules(n int) map[string][]byte {
+	if n <= 0 {
+		return nil
+	}
+	m := map[string][]byte{"big": bigSrc}
+	bodies := [][]byte{[]byte("export 1\n"), []byte("export {two: 2, f: func(a) { return a * 2 }}\n"), []byte("h := import(\"m1\")\nexport h + 2\n")}
+	for i := 0; i < n && i < len(bodies); i++ {
+		m[fmt.Sprintf("m%d", i+1)] = bodies[i]
+	}
+	return m
+}
+
+// importLines: "<prefix>1 := import("m1")\n…" for the first n extra modules.
+func importLines(prefix string, n int) string {
+	var sb strings.Builder
+	for i := 1; i <= n && i <= 3; i++ {
+		fmt.Fprintf(&sb, "%s%d := import(\"m%d\")\n", prefix, i, i)
+	}
+	return sb.String()
+}
+
+// bodyMain is the main source of the body kinds: the module under test between Pre and Post other imports.
+func bodyMain(c Config) []byte {
+	return []byte(importLines("pre", c.Pre) + "m := import(\"" + moduleName + "\")\nout := m\n" + importLines("post", c.Post))
+}
+
+var reAt = regexp.MustCompile(`^(.+):(\d+)(?::(\d+))?$`)
+
+// textPosProblem looks at the position an error TEXT carries ("…\n\tat file:line:col"): "" when usable.
+func textPosProblem(text string) string {
+	i := strings.LastIndex(text, "\n\tat ")
+	if i < 0 {
+		return "the text has no `at` part"
+	}
+	at := text[i+5:]
+	m := reAt.FindStringSubmatch(at)
+	if m == nil {
+		return fmt.Sprintf("the text ends in `at %s`: no file name and line", at)
+	}
+	if m[2] == "0" {
+		return fmt.Sprintf("the text ends in `at %s`: line 0", at)
+	}
+	return ""
 }
 
 // Finding is one failure of the property on an input.
